@@ -138,7 +138,9 @@ func (hc *Coordinator) handlePrometheusMetrics() http.HandlerFunc {
 
 					consumerPartitionLagGauge.With(labels).Set(float64(partition.CurrentLag))
 
-					if partition.Complete == 1.0 {
+					// A partition known only through an owner update has a window without any commit: with
+				// intervals = 1 that window still counts as complete, but there is no offset to report
+				if partition.Complete == 1.0 && partition.End != nil {
 						consumerPartitionCurrentOffset.With(labels).Set(float64(partition.End.Offset))
 						partitionStatusGauge.With(labels).Set(float64(partition.Status))
 					}
